@@ -22,6 +22,9 @@ ASSUMPTIONS = [
     "(the engine treats refinements the second way and alternatives the first), so only what BOTH readings agree on is demanded: "
     "a conclusion selected under every sigma (agreeing with it on its own variable) must be present, one selected under no sigma "
     "must be absent; multiplicity is not demanded for such trees",
+    "pair-matching rules (join=True): the base conditions are cond(x) and p.ref == x over two variables; with hidden=True no "
+    "conclusion mentions p while a branch may read it, base-level alternatives included (they also fire for pairs failing the "
+    "join); then only WHICH conclusions are produced per x is demanded, not how many equal ones",
     "reference: rule(chain): first node whose condition holds fires; fire(node): the conclusion of its exception chain if "
     "one fires, else its own (the reading under which the suite's eleven rule-tree tests pass)",
 ]
@@ -132,10 +135,14 @@ class C12(Case):
             f = COND_FIELDS[n["i"]]
             lhs = getattr(x, f) if f in ("a", "b", "c") else (x.t[0] if f == "t0" else x.t[1] if f == "t1" else x.d["k"] if f == "dk" else x.s[0])
             return lhs < y.a
+        if n.get("onp"):
+            return getattr(self._pvar, "abc"[n["i"] % 3]) > 0      # the branch reads the rule's second (joined) variable
         return cond_expr(x, n["i"])
 
     def emit_body(self, n, v, x):
-        if self.spec.get("join"):
+        if self.spec.get("join") and self.spec.get("hidden"):
+            Add(v, TYPES[n["i"]](it=x))         # no conclusion mentions the joined variable
+        elif self.spec.get("join"):
             Add(v, TYPES[n["i"]](it=x, other=self._pvar))
         elif n.get("bin"):
             Add(v, TYPES[n["i"]](it=x, other=self._yvars[n["i"]]))
@@ -160,10 +167,16 @@ class C12(Case):
             self._ys = [S.Other(name="p%d" % j) for j in range(2)]
             for j, po in enumerate(self._ys):
                 po.ref = mk.ref("p%d.ref" % j, items)
+                if sp.get("hidden"):
+                    po.a, po.b, po.c = (mk.int("p%d.%s" % (j, f)) for f in "abc")
         return dict(items=items, res=None, ys=self._ys)
 
     def build_and_evaluate(self, items, evaluations=1):
         """Build the rule tree afresh through the public API and evaluate it `evaluations` times."""
+        q = self.build(items)
+        return [self._view(list(q.evaluate()), items) for _ in range(evaluations)]
+
+    def build(self, items):
         sp = self.spec
         tree = sp["tree"]
         self._yvars = {}
@@ -171,7 +184,10 @@ class C12(Case):
             x = let(Item, domain=items)
             if sp.get("join"):
                 self._pvar = let(S.Other, domain=self._ys)
-                q = an(entity(v := let(Concl), cond_expr(x, tree[0]["i"]), self._pvar.ref == x))
+                if sp.get("join_first"):
+                    q = an(entity(v := let(Concl), self._pvar.ref == x, cond_expr(x, tree[0]["i"])))
+                else:
+                    q = an(entity(v := let(Concl), cond_expr(x, tree[0]["i"]), self._pvar.ref == x))
             elif sp.get("spelling") == "infer":
                 q = infer(v := let(Concl), cond_expr(x, tree[0]["i"]))
             else:
@@ -181,7 +197,7 @@ class C12(Case):
             for m in tree[1:]:
                 with alternative(self.node_cond(m, x)):
                     self.emit_body(m, v, x)
-        return [self._view(list(q.evaluate()), items) for _ in range(evaluations)]
+        return q
 
     def run(self, mk):
         sp = self.spec
@@ -207,12 +223,18 @@ class C12(Case):
         return out
 
     # reference -----------------------------------------------------------------------------------
-    def reference(self, alg, obj, sigma=None):
-        """{type index: term} - under which condition T_i is concluded for obj (sigma: bin node index -> its y object)."""
+    def reference(self, alg, obj, sigma=None, part=None, items=None):
+        """{type index: term} - under which condition T_i is concluded for obj (sigma: bin node index -> its y object;
+        part: the joined object of a pair-matching rule whose base conditions include part.ref == obj)."""
         out = {}
         sigma = sigma or {}
+        base = self.spec["tree"][0]
 
         def cond(n):
+            if part is not None and n is base:
+                return alg.and_(alg.same(part.ref, obj, items), alg.cmp("gt", cond_val(obj, n["i"]), 0))
+            if n.get("onp"):
+                return alg.cmp("gt", getattr(part, "abc"[n["i"] % 3]), 0)
             if n.get("bin"):
                 return alg.cmp("lt", cond_val(obj, n["i"]), sigma[n["i"]].a)
             return alg.cmp("gt", cond_val(obj, n["i"]), 0)
@@ -255,7 +277,16 @@ class C12(Case):
                         collect(n_["exc"])
             collect(self.spec["tree"])
             bins = sorted(i for i, b in binmap.items() if b)
-            if self.spec.get("join"):
+            if self.spec.get("join") and self.spec.get("hidden"):
+                # pairs (x, p) are matched, conclusions name x only: T_i(x) is produced iff some pair (x, p) selects it (how many
+                # equal conclusions several pairs of one x produce is not fixed by the statement and not demanded)
+                for oi, obj in enumerate(items):
+                    refs = [self.reference(alg, obj, part=po, items=items) for po in self._ys]
+                    for ti in refs[0]:
+                        cnt = sum(1 for r in rows if r[0] == ti and r[1] == oi)
+                        obs.append((tag + "x%d_conclusion_T%d_count_%d" % (oi, ti, cnt),
+                                    alg.iff(alg.const(cnt >= 1), alg.or_(*[rf[ti] for rf in refs]))))
+            elif self.spec.get("join"):
                 for oi, obj in enumerate(items):
                     ref = self.reference(alg, obj)
                     for pj, po in enumerate(self._ys):
@@ -357,6 +388,34 @@ def shapes(tier, seed):
                 if B <= 3:
                     out.append(dict(tree=t, join=True, twice=True))
                     out.append(dict(tree=t, join=True, cache="off"))
+    # pair-matching rules whose conclusions do not mention the joined variable while a branch condition reads it; the base may
+    # have base-level alternatives (they also fire for pairs that fail the join)
+    def mark_onp(tree, idxs):
+        t2 = json.loads(json.dumps(tree))
+
+        def rec(ch):
+            for n_ in ch:
+                if n_["i"] in idxs:
+                    n_["onp"] = True
+                if n_.get("exc"):
+                    rec(n_["exc"])
+        rec(t2)
+        return t2
+    def base_level(tree):
+        return {n_["i"] for n_ in tree}
+    for B in range(1, 4):
+        for t in all_trees(B):
+            for jf in (False, True):
+                out.append(dict(tree=t, join=True, hidden=True, join_first=jf))
+                for i in range(1, B):
+                    if not jf and i not in base_level(t):
+                        # a REFINEMENT reading the joined variable while the base's first conjunct (on x alone) can fail
+                        # before that variable is bound: the engine then asks whether SOME value refines (the reading it
+                        # uses for branch variables, see ASSUMPTIONS) - not demanded either way
+                        continue
+                    out.append(dict(tree=mark_onp(t, [i]), join=True, hidden=True, join_first=jf))
+            if B >= 2:
+                out.append(dict(tree=mark_onp(t, [B - 1]), join=True, hidden=True, join_first=True, twice=True))
     if tier == "thorough":
         seven = list(all_trees(7))
         for t in rnd.sample(seven, min(200, len(seven))):
